@@ -11,8 +11,8 @@ use crate::chain::{act_from_json, act_json, ChainCfg, ChainSt, HopAct, Loc};
 use crate::driver::ReqCfg;
 use crate::engine::{explore, replay_trace, validate_traces, Limits, Report, Sys, Tier, Violation};
 
-pub const RULE_C13: &str = "original requests {GET, POST with Content-Length: 3, POST chunked, PUT, DELETE, HEAD, GET with two cookie and two authorization fields, POST with Expect: 100-continue answered by the redirect itself} on {http://a.test/p, https://a.test/p, http://a.test:8080/p}, each carrying authorization: S3CRET, cookie: k=ORIG, x-keep: 1 (the main family also referer, origin, proxy-authorization); redirect-chain graph to depth 4 (thorough: depth 5 and 24 Locations) (state = hop + full fingerprint of the real Prepare flow + reference URI): at every hop every status {301,302,303,307,308} x every Location of a 20-entry pool (absolute http/https for hosts a.test/b.test/A.TEST with ports none/80/443/8080, hosts a.test.evil.example and a.tes that share a prefix with the original host, ws:// and ftp:// on the original host, scheme-relative, path-absolute, relative, ../, query-only) x policy {Never, SameHost} chosen independently per hop - all chains of length 1..4 incl. leave-and-return and scheme up/downgrades; in every state the head of the redirected request is written under two buffer schedules and read back. distinct = distinct chain states (flow fingerprint x reference URI x hop)";
-pub const RULE_C14: &str = "GET requests on bases {http://a.test/p, http://a.test/d/e/f?x=1, https://a.test:8443/, http://a.test, http://a.test?x=1}, plus GET / POST (Content-Length, chunked) requests on https and http bases carrying authorization, proxy-authorization, cookie, referer, origin, user-agent, accept-encoding (depth 2, statuses 301/302/307); redirect-chain graph to depth 3 (thorough 4): at every hop statuses {302,307} x a ~50-entry Location pool (absolute http/https with/without/default ports, scheme-relative, path-absolute, ./ ../ ../../.. relative, trailing slash, query-only, empty, each also with #fragment, 2-3 Location fields where the last wins) plus malformed values (missing, non-UTF-8, empty host, //, port 99999, unterminated IPv6 literal) x both policies; new flow's URI compared on components with an RFC 3986 section 5.2 reference that tracks its own current URI, and the request line / Host header of every state's head checked. distinct = distinct chain states";
+pub const RULE_C13: &str = "original requests {GET, POST with Content-Length: 3, POST chunked, PUT, DELETE, HEAD, GET with two cookie and two authorization fields, POST with Expect: 100-continue answered by the redirect itself} on {http://a.test/p, https://a.test/p, http://a.test:8080/p}, each carrying authorization: S3CRET, cookie: k=ORIG, x-keep: 1 (the main family also referer, origin, proxy-authorization); redirect-chain graph to depth 4 (thorough: depth 5 and 24 Locations) (state = hop + full fingerprint of the real Prepare flow + reference URI): at every hop every status {301,302,303,307,308} x every Location of a 27-entry pool (incl. three spellings of a redirect to the request's own URI, backslash and embedded-tab forms that the url crate resolves to another host; absolute http/https for hosts a.test/b.test/A.TEST with ports none/80/443/8080, hosts a.test.evil.example and a.tes that share a prefix with the original host, ws:// and ftp:// on the original host, scheme-relative, path-absolute, relative, ../, query-only) x policy {Never, SameHost} chosen independently per hop - all chains of length 1..4 incl. leave-and-return and scheme up/downgrades; in every state the head of the redirected request is written under two buffer schedules and read back. distinct = distinct chain states (flow fingerprint x reference URI x hop)";
+pub const RULE_C14: &str = "GET requests on bases {http://a.test/p, http://a.test/d/e/f?x=1, https://a.test:8443/, http://a.test, http://a.test?x=1}, plus GET / POST (Content-Length, chunked) requests on https and http bases carrying authorization, proxy-authorization, cookie, referer, origin, user-agent, accept-encoding (depth 2, statuses 301/302/307); redirect-chain graph to depth 3 (thorough 4): at every hop statuses {302,307} x a ~50-entry Location pool (absolute http/https with/without/default ports, scheme-relative, path-absolute, ./ ../ ../../.. relative, trailing slash, query-only, empty, commas in path and query, userinfo, each also with #fragment, 2-3 Location fields where the last wins) plus malformed values (missing, non-UTF-8, empty host, //, port 99999, unterminated IPv6 literal) x both policies; new flow's URI compared on components with an RFC 3986 section 5.2 reference that tracks its own current URI, and the request line / Host header of every state's head checked; plus 3 statuses x 3 Locations x 3 continuations of the head x every cut inside the Location value: a partly arrived Location must not be followed. distinct = distinct chain states";
 
 fn c13_cfgs(tier: Tier) -> Vec<Arc<ChainCfg>> {
     let mut locs: Vec<Loc> = [
@@ -38,6 +38,15 @@ fn c13_cfgs(tier: Tier) -> Vec<Arc<ChainCfg>> {
         // same host, but a scheme that is neither the original one nor https
         "ws://a.test/q",
         "ftp://a.test/q",
+        // back to the very URI of the request (self-redirect), spelled three ways
+        "/p",
+        "",
+        "p#frag",
+        // forms that a WHATWG URL parser sends to another host although they look path-like
+        "/\\b.test/q",
+        "\\\\b.test/q",
+        "/\t/b.test/q",
+        "ht\ttp://b.test/q",
     ]
     .iter()
     .map(|s| Loc::one(s))
@@ -96,6 +105,13 @@ fn c14_cfgs(tier: Tier) -> Vec<Arc<ChainCfg>> {
         "?q=2",
         "",
         "a/b/c/./../d",
+        // commas are ordinary characters of paths and queries
+        "/maps/@59.33,18.06,12z?ids=1,2,3",
+        "cb?return=list,//c.test/p",
+        "http://c.test/a,b",
+        // userinfo belongs to the authority
+        "http://user:pw@c.test/z",
+        "https://u@b.test/",
     ];
     let mut locs: Vec<Loc> = Vec::new();
     for l in base_locs {
@@ -146,6 +162,52 @@ fn c14_cfgs(tier: Tier) -> Vec<Arc<ChainCfg>> {
         out.push(Arc::new(ChainCfg { prop: "C14", req: r, body, statuses: vec![301, 302, 307], locs: locs.clone(), max_hops: 2, check_credentials: false, check_target: true, refuse_expect: false }));
     }
     out
+}
+
+/// C14: a Location value that has only partly arrived must never be followed (the request would go to
+/// a URI made from a truncated value). Every cut inside the value of the Location field.
+fn truncated_location(rep: &mut Report) {
+    use crate::driver::AnyFlow;
+    use ureq_proto::client::flow::RedirectAuthHeaders;
+    let mut cells = 0u64;
+    for status in [301u16, 302, 307] {
+        for loc in ["https://b.test.cdn.example/login?next=/a", "/abc/def/ghi", "//c.test:8080/x"] {
+            for tail in ["", "Content-Length: 0\r\n", "Location: /second\r\n"] {
+                let head = format!("HTTP/1.1 {} Moved\r\nServer: x\r\nLocation: {}\r\n{}\r\n", status, loc, tail);
+                let value_at = head.find("Location: ").unwrap() + 10;
+                for cut in value_at..value_at + loc.len() + 1 {
+                    cells += 1;
+                    let r = crate::engine::guarded(|| -> Option<String> {
+                        let mut f = crate::props::flows::recv_response_flow("GET");
+                        match f.try_response(&head.as_bytes()[..cut]) {
+                            Ok((_, None)) | Err(_) => None,
+                            Ok((n, Some(_))) => {
+                                let target = match AnyFlow::RecvResponse(f).proceed() {
+                                    Ok(Some(AnyFlow::Redirect(mut r))) => match r.as_new_flow(RedirectAuthHeaders::Never) {
+                                        Ok(Some(nf)) => format!("followed to {}", nf.uri()),
+                                        o => format!("as_new_flow: {:?}", o.map(|x| x.is_some())),
+                                    },
+                                    Ok(Some(o)) => format!("state {}", o.name()),
+                                    o => format!("{:?}", o.map(|x| x.map(|y| y.name()))),
+                                };
+                                Some(format!("the head cut inside the Location value ({:?}, {} of {} bytes) was taken as a complete response (consumed {}), {}", &head[value_at..cut], cut, head.len(), n, target))
+                            }
+                        }
+                    });
+                    let fail = match r {
+                        Ok(x) => x.map(|w| ("C14:truncated-location-followed".to_string(), w)),
+                        Err(p) => Some((format!("C14:panic:{}", crate::engine::panic_site(&p)), p)),
+                    };
+                    if let Some((key, what)) = fail {
+                        rep.violation(Violation { key, ord: 8_000_000 + cut as u64, what, replay: json!({"kind": "truncated-location"}) });
+                    }
+                }
+            }
+        }
+    }
+    rep.evaluations += cells;
+    rep.transitions += cells;
+    rep.extra("truncated_location_cells", json!(cells));
 }
 
 fn run_chains(cfgs: Vec<Arc<ChainCfg>>, max_states: u64) -> Report {
@@ -226,6 +288,7 @@ pub fn run_c13(tier: Tier) -> Report {
 pub fn run_c14(tier: Tier) -> Report {
     let mut rep = run_chains(c14_cfgs(tier), 5_000_000);
     rep.guard("some Location is rejected", false);
+    truncated_location(&mut rep);
     rep
 }
 
@@ -248,6 +311,11 @@ pub fn replay_c13(v: &Value) -> Result<Option<String>, String> {
 }
 
 pub fn replay_c14(v: &Value) -> Result<Option<String>, String> {
+    if v["kind"].as_str() == Some("truncated-location") {
+        let mut r = Report::new();
+        truncated_location(&mut r);
+        return Ok(r.violations.into_iter().next().map(|(k, (_, v))| format!("[{}] {}", k, v.what)));
+    }
     let tier = if v["tier"].as_str() == Some("thorough") { Tier::Thorough } else { Tier::Quick };
     replay_chain(c14_cfgs(tier), v)
 }
